@@ -1,4 +1,5 @@
 mod debug_tree;
+mod decode;
 mod itemlist;
 mod modelop;
 mod model;
@@ -16,6 +17,8 @@ fn main() {
     match argv[1].as_str() {
         "itemlist-replay" => itemlist::replay(&args),
         "itemlist-record" => itemlist::record(&args),
+        "decode-replay" => decode::replay(&args),
+        "decode-fuzz" => decode::fuzz(&args),
         "model-op" => modelop::run(&args),
         "placement-replay" => placement::replay(&args),
         "placement-record" => placement::record(&args),
